@@ -108,6 +108,7 @@ class FloatV:
     def __init__(self, term, int_term=None):
         self.t = term
         self.i = int_term          # set when the float is known to be integral: value == ToReal(int_term)
+        self.q = None              # (a, b) when the value is the quotient of two integers a / b
 
     def __repr__(self):
         return f"FloatV({self.t})"
@@ -382,6 +383,8 @@ class Ctx:
         self.forks = []            # alternative prefixes discovered on this run
         self.solver = z3.Solver()
         self.solver.set("timeout", timeout_ms)
+        self.timeout_ms = timeout_ms
+        self.feas_timeout_ms = min(1500, timeout_ms)
         self.pc = []
         self.n_vcs = 0
         self.vc_log = []
@@ -420,8 +423,11 @@ class Ctx:
         if self.pos < len(self.prefix):
             d = self.prefix[self.pos]
         else:
+            # feasibility is only an optimisation (an infeasible path has vacuous VCs): short budget, unknown = feasible
+            self.solver.set("timeout", self.feas_timeout_ms)
             can_t = self._check(cond) != z3.unsat
             can_f = self._check(z3.Not(cond)) != z3.unsat
+            self.solver.set("timeout", self.timeout_ms)
             if can_t and can_f:
                 self.forks.append(self.decisions + [False])
                 d = True
@@ -444,13 +450,60 @@ class Ctx:
             return
         if goal is False:
             goal = z3.BoolVal(False)
+        self.solver.set("timeout", min(3000, self.timeout_ms))
+        r = self._check(z3.Not(goal))
+        self.solver.set("timeout", self.timeout_ms)
+        if r == z3.unsat:
+            self.vc_log.append((label, "unsat"))
+            return
+        if r == z3.sat:
+            raise VCFailed(label, self.solver.model(), detail=str(z3.simplify(goal))[:400])
+        # further attempts on a FRESH solver fed through the SMT-LIB printer/parser (z3's performance depends heavily on
+        # term structure; the re-parsed problem is the same formula) -- first with a SUBSET of the hypotheses (sound: fewer
+        # hypotheses can never make a wrong proof), the equational facts only, then with all of them
+        keep = [f for f in self.pc if _eqish(f)]
+        for hyps, tag in ((keep, "equational-hypotheses"), (self.pc, "reparsed")):
+            t = time.time()
+            r2 = fresh_check(list(hyps) + [z3.Not(goal)], self.timeout_ms)
+            self.solver_time += time.time() - t
+            if r2 == z3.unsat:
+                self.vc_log.append((label, f"unsat({tag})"))
+                return
+        # last: the incremental solver again with the full budget (a model is needed for refutations)
         r = self._check(z3.Not(goal))
         if r == z3.unsat:
             self.vc_log.append((label, "unsat"))
             return
         if r == z3.sat:
             raise VCFailed(label, self.solver.model(), detail=str(z3.simplify(goal))[:400])
+        import os
+        if os.environ.get("PYVC_DUMP"):
+            with open(os.path.join(os.environ["PYVC_DUMP"], f"vc_{label.replace('/', '_').replace(':', '_')}.smt2"), "w") as fh:
+                s2 = z3.Solver()
+                s2.add(*self.pc)
+                s2.add(z3.Not(goal))
+                fh.write(s2.to_smt2())
         raise VCUnknown(label, detail=self.solver.reason_unknown())
+
+
+def fresh_check(assertions, timeout_ms):
+    try:
+        s0 = z3.Solver()
+        s0.add(*assertions)
+        s1 = z3.Solver()
+        s1.set("timeout", timeout_ms)
+        s1.from_string(s0.to_smt2())
+        return s1.check()
+    except z3.Z3Exception:
+        return z3.unknown
+
+
+def _eqish(f):
+    if z3.is_eq(f) or z3.is_implies(f):
+        return True
+    if z3.is_and(f):
+        return all(_eqish(c) for c in f.children())
+    return False
 
 
 def fresh(ctx: Ctx, t: T, name):
